@@ -4,7 +4,7 @@
 # the patch, full suite failing-set equals the pristine baseline (modulo known flakes).
 # On success stores it as /verif/seeded/<PROP>-<variant>/ with meta.json.
 set -u
-P=$1; V=$2; SRC=$3; DEST=${4:-.}; PKG=${5:-.}
+P=$1; V=$2; SRC=$3; DEST=${4:-.}; PKG=${5:-.}; EXTRA=${6:-}
 ID=$P-$V
 WT=/tmp/vs-$ID
 export GOFLAGS=-mod=mod GOPROXY=off
@@ -18,19 +18,19 @@ cp $SRC/seeded_*_test.go $WT/$DEST/ || exit 2
 RUN=$(ls $SRC/seeded_*_test.go | head -1 | xargs grep -ho "^func Test[A-Za-z0-9_]*" | sed 's/func //' | paste -sd'|')
 cd $WT
 echo "### demo on pristine (expect PASS): -run '$RUN' $PKG"
-go test -vet=off -count=1 -run "^($RUN)\$" $PKG; PR=$?
+go test $EXTRA -vet=off -count=1 -timeout 20m -run "^($RUN)\$" $PKG; PR=$?
 echo "pristine rc=$PR"
 git apply $SRC/patch.diff || { echo "PATCH FAILED"; exit 2; }
 echo "### build with patch"
 go build ./... ; BR=$?
 echo "### demo with patch (expect FAIL)"
-go test -vet=off -count=1 -run "^($RUN)\$" $PKG; MR=$?
+go test $EXTRA -vet=off -count=1 -timeout 20m -run "^($RUN)\$" $PKG; MR=$?
 echo "patched rc=$MR"
 echo "### full suite with patch (demo removed)"
 rm -f $WT/$DEST/seeded_*_test.go
 go test -vet=off -count=1 ./... 2>&1 | grep -E "^(--- FAIL|FAIL|ok )" | grep -v "^ok " | sort -u > /tmp/seedout/verify-$ID.fails
 cat /tmp/seedout/verify-$ID.fails | grep -v "/s3\|TestReplicaClient\|^FAIL$" | head -20
-NEWFAIL=$(grep -E "^--- FAIL" /tmp/seedout/verify-$ID.fails | grep -v "TestReplicaClient\|TestReplica_UploadLTXFile_OpenErrorReturnsLTXError\|TestDB_DelayedCheckpointAfterWrite\|TestServer_Handle\|TestRegisterCommand_Run\|TestDB_Close_SyncRetry\|TestStore_Integration\|TestResumableReader_ContextCancel\|TestNewReplicaClientFromConfig\|TestParseReplicaURL" | wc -l)
+NEWFAIL=$(grep -E "^--- FAIL" /tmp/seedout/verify-$ID.fails | grep -v "TestLeaser_\|TestReplicaClient\|TestReplica_UploadLTXFile_OpenErrorReturnsLTXError\|TestDB_DelayedCheckpointAfterWrite\|TestServer_Handle\|TestRegisterCommand_Run\|TestDB_Close_SyncRetry\|TestStore_Integration\|TestResumableReader_ContextCancel\|TestNewReplicaClientFromConfig\|TestParseReplicaURL" | wc -l)
 echo "RESULT id=$ID pristine_demo_rc=$PR build_rc=$BR patched_demo_rc=$MR unexpected_suite_failures=$NEWFAIL"
 if [ $PR -eq 0 ] && [ $BR -eq 0 ] && [ $MR -ne 0 ]; then
   D=/verif/seeded/$ID; mkdir -p $D
